@@ -709,6 +709,8 @@ def _shrink_scenario(sc, scdir_base, refs, want_kind):
                 cur = cand
         argv = list(run["cfg"].get("argv") or [])
         j = 0
+        if run.get("expect"):
+            j = len(argv)  # a trigger's options are what makes it a trigger: never dropped
         while j < len(argv):
             if argv[j].startswith("--ff=") or argv[j].startswith("--userff"):
                 j += 1
@@ -855,7 +857,7 @@ CFGS = {
                         "argv": ["--ff=AMBER", "--ffout=CHARMM", "--include-header",
                                  "--nodebump"]},
     "ajj-net": {"item": "1AJJ.pdb", "window": [10, 10], "input_mode": "pdbid",
-                "pdbid": "1AJJ", "argv": ["--ff=SWANSON", "--drop-water"]},
+                "pdbid": "1AJJ", "argv": ["--ff=SWANSON", "--ffout=CHARMM", "--drop-water"]},
     "bx8-damaged-tyl06": {"item": "1BX8.pdb", "window": [20, 14],
                           "damage": [[3, "drop_tail"], [8, "drop_atom:CG"]],
                           "argv": ["--ff=TYL06", "--apbs-input={apbsout}"]},
